@@ -69,7 +69,7 @@ def rule_r1(ctx):
             # accepting side: branch nodes inside the loop from which no error store is reachable within the iteration
             acc = []
             for b in g.nodes:
-                if b.kind != "branch" or b.id not in an.outst or not any(x is b.ast for x in ast.walk(lp.ast)):
+                if b.kind != "branch" or b.id not in an.outst or not any(x is b.ast or x is getattr(b, "stmt", None) for x in ast.walk(lp.ast)):
                     continue
                 r = g.reach(b, avoid=[lp], follow_exc=False)
                 if any(e.id in r for e in errs):
